@@ -4,6 +4,7 @@ package packages
 
 import (
 	"context"
+	"encoding/json"
 
 	"github.com/go-logr/logr"
 	"k8s.io/apimachinery/pkg/api/meta"
@@ -15,6 +16,7 @@ import (
 	corev1alpha1 "package-operator.run/apis/core/v1alpha1"
 	"package-operator.run/internal/adapters"
 	"package-operator.run/internal/apis/manifests"
+	"package-operator.run/internal/imageprefix"
 	"package-operator.run/internal/packages"
 	"package-operator.run/internal/verifk8s"
 	"package-operator.run/internal/verifrt"
@@ -186,4 +188,77 @@ func VerifC16C09Controller() {
 	}
 	verifrt.Assert(ok, "C16/success-records-hash-and-persists-conditions")
 	verifrt.Reach("unpacked")
+}
+
+// VerifC16Respec: the unpacked-hash protocol over three passes, without any reference to how the hash is computed:
+// after a successful unpack an unchanged spec is left alone, and an edit of image, component or config is always
+// pulled and deployed again - with and without image prefix overrides and a hash modifier configured.
+func VerifC16Respec() {
+	c := verifk8s.NewClient()
+	pkg := &corev1alpha1.Package{}
+	pkg.Name, pkg.Namespace, pkg.UID = "pkg", "ns", "uid-pkg"
+	pkg.Generation = 3
+	pkg.Spec.Image = "img:v1"
+	if verifrt.Bool("spec.component.set") {
+		pkg.Spec.Component = "c1"
+	}
+	if verifrt.Bool("spec.config.set") {
+		raw, _ := json.Marshal(map[string]interface{}{"a": "1"})
+		pkg.Spec.Config = &runtime.RawExtension{Raw: raw}
+	}
+	c.Put(pkg)
+	var overrides []imageprefix.Override
+	if verifrt.Bool("manager.imagePrefixOverrides") {
+		overrides = []imageprefix.Override{{From: "quay.io/a", To: "mirror.local/a"}}
+	}
+	var modifier *int32
+	if verifrt.Bool("manager.hashModifier") {
+		m := verifrt.Int32("manager.hashModifier.value")
+		modifier = &m
+	}
+	puller := &vPuller{}
+	deployer := &vDeployer{}
+	ctl := newGenericPackageController(adapters.NewGenericPackage, adapters.NewObjectDeployment, c, verifk8s.NewClient(), logr.Discard(),
+		vScheme(), puller, deployer, nil, modifier, overrides)
+	ctl.unpackReconciler.environmentSink = vEnvSink{}
+	req := ctrl.Request{NamespacedName: types.NamespacedName{Namespace: "ns", Name: "pkg"}}
+	key := verifk8s.KeyOf(pkg)
+	pass := func() error {
+		n := len(c.Calls)
+		_, err := ctl.Reconcile(context.Background(), req)
+		// the API server persists status updates
+		for _, call := range c.Calls[n:] {
+			if call.Verb == "status-update" && call.Key == key {
+				st := call.Obj["status"]
+				c.Objs[key]["status"] = st
+			}
+		}
+		return err
+	}
+	err := pass()
+	verifrt.Assert(err == nil && puller.calls == 1 && deployer.calls == 1, "C16/first-pass-unpacks")
+	err = pass()
+	verifrt.Assert(err == nil && puller.calls == 1 && deployer.calls == 1, "C16/unchanged-package-left-alone")
+	// a spec edit
+	spec, _ := c.Objs[key]["spec"].(map[string]interface{})
+	edit := verifrt.IntRange("edit", 0, 3) // none | image | component | config
+	switch edit {
+	case 1:
+		spec["image"] = "img:v2"
+	case 2:
+		spec["component"] = "c2"
+	case 3:
+		spec["config"] = map[string]interface{}{"a": "2"}
+	}
+	err = pass()
+	if edit == 0 {
+		verifrt.Assert(err == nil && puller.calls == 1 && deployer.calls == 1, "C16/unchanged-package-left-alone")
+		verifrt.Reach("respec-unchanged")
+		return
+	}
+	verifrt.Assert(err == nil && puller.calls == 2, "C16/changed-package-is-pulled")
+	verifrt.Assert(deployer.calls == 2, "C16/changed-package-is-deployed")
+	err = pass()
+	verifrt.Assert(err == nil && puller.calls == 2 && deployer.calls == 2, "C16/unchanged-package-left-alone")
+	verifrt.Reach("respec-changed")
 }
